@@ -21,7 +21,7 @@ TRACE_CONSTS = ("  Residues = {0}\n  MaxLen = 1\n  MaxSeqs = 1\n  RankVals = {1}
 GAP = 99
 
 
-def cfg_text(kinds, residues=(0, 1), maxlen=3, maxseqs=3, rankvals=(1, 2, 3), maxrank=4, pointvals=(0, 1), maxpoints=4, mutations=(), invs=INVS, emit=True):
+def cfg_text(kinds, residues=(0, 1), maxlen=3, maxseqs=3, rankvals=(0, 1, 2), maxrank=4, pointvals=(0, 1), maxpoints=4, mutations=(), invs=INVS, emit=True):
     t = "SPECIFICATION Spec\nCONSTANTS\n"
     t += f"  Residues = {{{', '.join(map(str, residues))}}}\n  MaxLen = {maxlen}\n  MaxSeqs = {maxseqs}\n  RankVals = {{{', '.join(map(str, rankvals))}}}\n  MaxRank = {maxrank}\n"
     t += f"  PointVals = {{{', '.join(map(str, pointvals))}}}\n  MaxPoints = {maxpoints}\n"
@@ -110,7 +110,7 @@ def replay_align(ctx, doc, n, logos):
 def rank_call(vals, nx, ny, scalex, scaley, variant):
     import pandas as pd
     import pyrepseq as prs
-    data = [float(v) if v else np.nan for v in vals]
+    data = [np.nan if v == -1 else float(v) for v in vals]
     data = [data, np.array(data), pd.Series(data, index=[f"c{i}" for i in range(len(data))])][variant % 3]
     ret = prs.plotting.rankfrequency(data, ax=axes(), normalize_x=nx, normalize_y=ny, scalex=scalex, scaley=scaley,
                                      log_x=bool(variant % 2), log_y=bool(variant % 2))
@@ -128,7 +128,7 @@ def replay_rank(ctx, doc, n):
         return
     want = doc["out"]
     if len(xs) != len(want) or not all(estim.close(x, w[0]) and estim.close(y, w[1]) for x, y, w in zip(xs, ys, want)):
-        ctx.violation("rankfrequency/data_wrong", f"rankfrequency({doc['vals']} [0 = missing], {doc['opt']}) drew x={xs} y={ys} want {want}"[:500], rp)
+        ctx.violation("rankfrequency/data_wrong", f"rankfrequency({doc['vals']} [-1 = missing], {doc['opt']}) drew x={xs} y={ys} want {want}"[:500], rp)
 
 
 def replay_scatter(ctx, doc, n):
@@ -185,8 +185,8 @@ def make_sessions(ctx, n, heat):
             except Exception as e:      # noqa: BLE001
                 ev.update(raised=True, exc=f"{type(e).__name__}: {e}"[:200])
         elif typ == 1:
-            vals = [ctx.rng.choice([0, 1, 1, 2, 3, 5, 8, 13, 40]) for _ in range(ctx.rng.randint(1, 25))]
-            if not any(vals):
+            vals = [ctx.rng.choice([-1, 0, 0, 1, 1, 2, 3, 5, 8, 13, 40]) for _ in range(ctx.rng.randint(1, 25))]
+            if not any(v > 0 for v in vals):
                 vals[0] = 4
             nx, ny = ctx.rng.random() < 0.5, ctx.rng.random() < 0.5
             sx, sy = ctx.rng.choice([1, 2, 5]), ctx.rng.choice([1, 3])
@@ -298,6 +298,8 @@ def run(ctx):
             ctx.negative.append(dict(kind="corrupted_trace", corruption=want, rejected=ok))
             if not ok:
                 raise MachineryFailure(f"corrupted summaries trace ({want}) accepted")
+    run_cfg(ctx, "NEG_rank", cfg_text(["rank"], maxrank=2, mutations=["rank_drops_zero"], invs=("RankDescending",), emit=False),
+            expect_violation=["RankDescending"], workers=4)
     run_cfg(ctx, "NEG_regex", cfg_text(["align"], maxlen=2, maxseqs=2, mutations=["regex_ge"], invs=("RegexIsProductLanguage",), emit=False),
             expect_violation=["RegexIsProductLanguage"], workers=4)
 
